@@ -220,6 +220,19 @@ var EdgeCases = []string{
 	"9223372036854775807 9223372036854775808 -9223372036854775808 -9223372036854775809", "\\0 \\110000 \\d800 \\10ffff x",
 }
 
+// every place where "would start an identifier" / "starts with a valid escape" is consulted, with the
+// backslash-newline (an INVALID escape) and the backslash at end of input at look-ahead offsets 0, 1, 2
+func init() {
+	for _, pre := range []string{"", "-", "--", "---", "1-", "12.5-", "1e3-", "@-", "@--", "#-", "#--", "#", "@", "a-", "-a", "a", "1", "1a", "url(-", "url(", "(", "f(-"} {
+		for _, nl := range []string{"\n", "\r\n", "\r", "\f"} {
+			for _, suf := range []string{"", "x", " b", "-", "\\" + nl} {
+				EdgeCases = append(EdgeCases, pre+"\\"+nl+suf)
+			}
+		}
+		EdgeCases = append(EdgeCases, pre+"\\", pre+"\\ ", pre+"\\\\")
+	}
+}
+
 // Corpus loads the input strings of the bundled css-parsing-tests files.
 func Corpus(repo string) []string {
 	var out []string
